@@ -643,3 +643,6 @@ func (n *Net) RecipeLockAttack() string {
 	}
 	return "locked-pair"
 }
+
+// StartRoundOne is the exported form of startRoundOne.
+func (n *Net) StartRoundOne(i int, h int64) bool { return n.startRoundOne(i, h) }
